@@ -118,6 +118,28 @@ pub fn is_sane(d: &DDesc) -> bool {
 
 /// Well-typed: the top-level miniscript of every script-carrying part is a complete boolean (B)
 /// expression. (`Descriptor::from_str` at this commit does not check this for sh/wsh.)
+/// Legacy (sh / bare) scripts that fail the sanity rules only through the two IF-related switches
+/// (`or_i`, `d:`): malleable before segwit because MINIMALIF is not a rule there, but perfectly
+/// spendable.
+pub fn legacy_sane_but_for_if(d: &DDesc) -> bool {
+    use miniscript::descriptor::ShInner;
+    use miniscript::ScriptContext;
+    let relax = |mut p: miniscript::ValidationParams| {
+        p.allow_or_i = true;
+        p.allow_dup_if = true;
+        p.allow_malleability = true;
+        p
+    };
+    match d {
+        Descriptor::Bare(b) => b.as_inner().validate(&miniscript::BareCtx::SANE).is_err() && b.as_inner().validate(&relax(miniscript::BareCtx::SANE)).is_ok(),
+        Descriptor::Sh(s) => match s.as_inner() {
+            ShInner::Ms(m) => m.validate(&miniscript::Legacy::SANE).is_err() && m.validate(&relax(miniscript::Legacy::SANE)).is_ok(),
+            _ => false,
+        },
+        _ => false,
+    }
+}
+
 pub fn is_well_typed(d: &DDesc) -> bool {
     use miniscript::descriptor::ShInner;
     let p = miniscript::ValidationParams::CONSENSUS; // permissive except allow_non_b = false
